@@ -2,7 +2,7 @@ SPEC = {
     'id': 'C36',
     'harness': 'hC36',
     'coq_dir': 'C36',
-    'claimed': False,
+    'claimed': True,
     'theorems': ['C36_reply_to_own_request', 'C36_responder_holds_current_request', 'C36_at_most_once_delivery',
                  'C36_reply_without_discipline_refuted', 'C36_discipline_satisfiable',
                  'C36_after_close_errors', 'C36_queue_close_closes_topics',
